@@ -603,7 +603,101 @@ func TestUnusualCreationArguments(t *testing.T) {
 		defer rt.Entropy(gen.Seed().Draw(t, "entropy"))()
 		chal, nonce := gen.Challenge().Draw(t, "challenge"), gen.Bytes32().Draw(t, "nonce")
 		s.Eval()
-		switch kind := gen.Uniform(t, 3, "kind"); kind {
+		switch kind := gen.Uniform(t, 5, "kind"); kind {
+		case 3:
+			// ONE key object of the application is re-used: it holds issuer key A when the first request is created and is then
+			// decoded again, in place, with issuer key B (a key rotation) before the second request is created with it. The
+			// second request was created for key B.
+			seed := gen.Seed().Draw(t, "keyseed")
+			kA, kB := gen.OPRFKey(oprf.SuiteP384, append(append([]byte{}, seed...), 'A')), gen.OPRFKey(oprf.SuiteP384, append(append([]byte{}, seed...), 'B'))
+			encA, _ := kA.Public().MarshalBinary()
+			encB, _ := kB.Public().MarshalBinary()
+			pk := new(oprf.PublicKey)
+			if err := pk.UnmarshalBinary(oprf.SuiteP384, encA); err != nil {
+				t.Fatalf("harness: %v", err)
+			}
+			s.Class("type1-key-object-redecoded")
+			s.Nontrivial([]byte{1, 3}, seed, chal, nonce)
+			c := type1.NewBasicPrivateClient()
+			idA, idB := gen.OPRFKeyID(kA), gen.OPRFKeyID(kB)
+			if _, err := c.CreateTokenRequest(chal, nonce, idA, pk); err != nil {
+				t.Fatalf("harness health: creation failed: %v", err)
+			}
+			if err := pk.UnmarshalBinary(oprf.SuiteP384, encB); err != nil {
+				t.Fatalf("harness: %v", err)
+			}
+			stB, err := c.CreateTokenRequest(chal, nonce, idB, pk)
+			if err != nil {
+				t.Fatalf("harness health: creation failed: %v", err)
+			}
+			for _, who := range []struct {
+				name string
+				k    *oprf.PrivateKey
+				must bool
+			}{{"key-object-redecoded-foreign-key", kA, true}, {"key-object-redecoded-own-key", kB, false}} {
+				resp, err := type1.NewBasicPrivateIssuer(who.k).Evaluate(stB.Request())
+				if err != nil {
+					continue
+				}
+				var tok tokens.Token
+				var ferr error
+				if o := rt.GuardLite(func() { tok, ferr = stB.FinalizeToken(resp) }); o.Panic != nil {
+					rt.Fail(t, "C02/type1/"+who.name+"/panic", "finalization panicked: %v", o.Panic)
+					return
+				}
+				if ferr != nil {
+					s.Class(who.name + ":rejected")
+					continue
+				}
+				s.Class(who.name + ":accepted")
+				if !bytes.Equal(tok.Authenticator, gen.VOPRFOutput(oprf.SuiteP384, kB, gen.AuthInput(1, nonce, chal, idB))) || who.must {
+					rt.Fail(t, "C02/type1/"+who.name+"/invalid-token", "the application's key object held key A for an earlier request and was re-decoded with key B before this request was created with it; a response computed under key %s was accepted and the token is not valid under key B", map[bool]string{true: "A", false: "B"}[who.must])
+					return
+				}
+			}
+		case 4:
+			// fixed-blind creation with a blind that is NOT a scalar encoding (wrong length, nil): creation fails, or whatever
+			// finalization later returns without an error verifies
+			key := gen.OPRFKey(oprf.SuiteRistretto255, gen.Seed().Draw(t, "keyseed"))
+			issuer := type5.NewBatchedPrivateIssuer(key)
+			n := gen.UniformRange(t, 1, 3, "batch")
+			nonces, blinds := make([][]byte, n), make([][]byte, n)
+			for i := range nonces {
+				nonces[i], blinds[i] = gen.Bytes32().Draw(t, "nonceI"), gen.RistrettoScalar().Draw(t, "blindI")
+			}
+			bad := gen.Uniform(t, n, "badPos")
+			blinds[bad] = gen.Pick(t, [][]byte{nil, {}, blinds[bad][:31], append(append([]byte{}, blinds[bad]...), 0), bytes.Repeat([]byte{0xff}, 32)}, "badBlind")
+			s.Class("type5-malformed-blind")
+			s.Nontrivial([]byte{5, 4, byte(bad), byte(len(blinds[bad]))}, chal, bytes.Join(nonces, nil))
+			var st type5.BatchedPrivateTokenRequestState
+			var err error
+			if o := rt.GuardLite(func() {
+				st, err = type5.NewBatchedPrivateClient().CreateTokenRequestWithBlinds(chal, nonces, issuer.TokenKeyID(), issuer.TokenKey(), blinds)
+			}); o.Panic != nil || err != nil {
+				s.Class("creation-refused")
+				return
+			}
+			var resp []byte
+			if o := rt.GuardLite(func() { resp, err = issuer.Evaluate(st.Request()) }); o.Panic != nil || err != nil {
+				s.Class("issuer-refused")
+				return
+			}
+			var toks []tokens.Token
+			if o := rt.GuardLite(func() { toks, err = st.FinalizeTokens(resp) }); o.Panic != nil {
+				rt.Fail(t, "C02/type5/malformed-blind/panic", "finalization panicked: %v", o.Panic)
+				return
+			}
+			if err != nil {
+				s.Class("rejected")
+				return
+			}
+			for i, tok := range toks {
+				if !bytes.Equal(tok.Authenticator, gen.VOPRFOutput(oprf.SuiteRistretto255, key, gen.AuthInput(5, nonces[i], chal, issuer.TokenKeyID()))) {
+					rt.Fail(t, "C02/type5/malformed-blind/invalid-token", "request created with a %d-byte blind at position %d (creation reported no error); finalization returned no error, but token %d does not verify", len(blinds[bad]), bad, i)
+					return
+				}
+			}
+			s.Class("accepted")
 		case 0:
 			k := gen.RSAPool()[gen.RSAKey().Draw(t, "rsakey")]
 			issuer := type2.NewBasicPublicIssuer(k)
